@@ -320,3 +320,48 @@ def init_slot(loop, slot, idx=None):
         return e
     return None
 
+
+
+def runner_iteration_sites(idx, module_suffix="torch_tqdm"):
+    """for every `while_loop_winfo` runner: where `info['iterations']` is incremented -- in the callable handed to the inner while_loop
+    as its condition ('cond': one count per condition evaluation = steps + 1) or as its body ('body': one per step).  The callable may
+    be a nested function or an instance of a (private) class with __call__.  -> [(runner FuncInfo, 'cond' | 'body' | None, node)]"""
+    out = []
+    for f in idx.funcs_named("while_loop_winfo"):
+        if module_suffix and not f.module.name.endswith(module_suffix):
+            continue
+        holders = [f] + list(f.nested.values())
+        wl, owner = None, None
+        for g in holders:
+            for c in df.calls(g.node, into_nested=False):
+                if isinstance(c.func, ast.Name) and c.func.id == "while_loop":
+                    wl, owner = c, g
+        if wl is None:
+            out.append((f, None, None))
+            continue
+        b = df.bind_call(wl, ["cond_fun", "body_fun", "init_val"])
+
+        def callable_of(e):
+            if isinstance(e, ast.Name):
+                g = owner
+                while g is not None:
+                    if e.id in g.nested:
+                        return g.nested[e.id]
+                    g = g.parent
+                e = df.resolve_value(owner.node, e)
+            if isinstance(e, ast.Call):
+                r = idx.resolve_expr(owner.module, e.func, owner)
+                if r is not None and r.kind == "class" and "__call__" in r.val.methods:
+                    return r.val.methods["__call__"]
+            return None
+        role = node = None
+        for which in ("cond_fun", "body_fun"):
+            g = callable_of(b.get(which))
+            if g is None:
+                continue
+            for n in df.body_nodes(g.node):
+                if isinstance(n, ast.AugAssign) and isinstance(n.op, ast.Add) and isinstance(n.target, ast.Subscript) and isinstance(n.target.slice, ast.Constant) \
+                        and n.target.slice.value == "iterations":
+                    role, node = ("cond" if which == "cond_fun" else "body"), n
+        out.append((f, role, node))
+    return out
